@@ -57,8 +57,9 @@ type req struct {
 	key   string // base#occurrence, assigned by the scheduler when it first sees the request
 	ctx   context.Context
 	ch    chan resp
-	born  int      // scheduler step at which the request was first seen parked
-	verAt *version // source chain version when the call was made
+	born  int       // scheduler step at which the request was first seen parked
+	verAt *version  // source chain version when the call was made
+	gs    *gorState // feeder class: what the calling goroutine has been doing (feeder.go)
 }
 
 type resp struct {
@@ -68,6 +69,9 @@ type resp struct {
 	upd   starknet.PreConfirmedUpdate
 	num   uint64
 	class core.ClassDefinition
+	// feeder class: the HTTP answer (feeder.go); answers made of the fields above are translated in release
+	status int
+	body   []byte
 }
 
 func (r *req) cancelled() bool { return r.ctx != nil && r.ctx.Err() != nil }
@@ -208,6 +212,10 @@ type config struct {
 	// C20
 	preconf  bool
 	interval time.Duration
+
+	// C06 feeder class: the real feeder client stack over a simulated HTTP transport (feeder.go)
+	feeder bool
+	fc     feederCfg
 }
 
 type stored struct {
@@ -275,7 +283,7 @@ type world struct {
 	// model of the node's chain and oracle state
 	local          []stored
 	lastGone       map[*chaingen.Block]int // step at which the node last reverted the block
-	revertRun      []*chaingen.Block // blocks reverted since the last store, in revert order
+	revertRun      []*chaingen.Block       // blocks reverted since the last store, in revert order
 	commitReleased bool
 	deliveries     []delivery
 	tampered       []tamperRec
@@ -283,13 +291,15 @@ type world struct {
 	revertsN       int
 	maxParkedBlock int
 
-	spun       bool // the read budget of the last step was exhausted
+	spun       bool                               // the read budget of the last step was exhausted
 	classBurst bool                               // a burst of Class calls has been let through
 	classDefs  map[felt.Felt]core.ClassDefinition // what Class serves (C20)
 
 	// C20: the committed side only carries the head around; C06's revert-justification and liveness
 	// oracles are not evaluated there
 	noSyncOracle bool
+
+	fg *gateway // feeder class only
 }
 
 func (w *world) rel() time.Duration { return time.Since(w.start) }
@@ -309,6 +319,15 @@ func drawConfig(c *sim.Ctx, preconf bool) config {
 	var cfg config
 	cfg.gomaxprocs = runtime.GOMAXPROCS(0)
 	cfg.preconf = preconf
+	if !preconf {
+		cfg.feeder = t.Chance("feeder", 1, 3)
+		switch c.Knobs["feeder"] { // development aid (JSIM_KNOB_feeder): force the class; never set by the props file
+		case "1":
+			cfg.feeder = true
+		case "0":
+			cfg.feeder = false
+		}
+	}
 	cfg.newState = t.Draw("newstate", 2) == 1
 	cfg.faulty = t.Chance("faulty", 3, 4)
 	cfg.initLen = 1 + t.Draw("init.len", 12)
@@ -335,12 +354,19 @@ func drawConfig(c *sim.Ctx, preconf bool) config {
 		cfg.staleLat = on("f.stalelatest")
 		cfg.flap = t.Chance("f.flap", 1, 4)
 	}
+	if cfg.feeder {
+		cfg.fc = drawFeederCfg(t, &cfg)
+	}
 	return cfg
 }
 
 func newWorld(c *sim.Ctx, cfg config) *world {
 	w := &world{c: c, cfg: cfg, start: time.Now(), byHash: map[felt.Felt]*chaingen.Block{}, lastGone: map[*chaingen.Block]int{}, occ: map[string]int{}, nSeen: map[*req]bool{}}
 	w.drv = newChainDriver(c)
+	if cfg.feeder {
+		w.fg = newGateway(w)
+		w.drv.post = w.fg.onBlockGenerated
+	}
 	var chain []*chaingen.Block
 	var parent *chaingen.Block
 	for i := 0; i < cfg.initLen; i++ {
@@ -379,7 +405,11 @@ func newWorld(c *sim.Ctx, cfg config) *world {
 func (w *world) startNode() {
 	w.sched = true
 	w.mem.on.Store(true)
-	w.syn = jsync.New(w.bc, source{w}, log.NewNopZapLogger(), w.cfg.interval, false, w.fdb)
+	var src jsync.DataSource = source{w}
+	if w.fg != nil {
+		src = w.fg.dataSource()
+	}
+	w.syn = jsync.New(w.bc, src, log.NewNopZapLogger(), w.cfg.interval, false, w.fdb)
 	w.syn.WithListener(&jsync.SelectiveListener{OnReorgCb: func(n uint64) {
 		w.mu.Lock()
 		defer w.mu.Unlock()
@@ -415,6 +445,9 @@ func (w *world) shutdown() {
 	w.closing = true
 	w.mu.Unlock()
 	w.mem.on.Store(false)
+	if w.fg != nil {
+		defer w.fg.uninstall()
+	}
 	if w.cancel == nil {
 		return
 	}
@@ -549,6 +582,9 @@ func (w *world) reorg() {
 // ---- answers -----------------------------------------------------------------------------------
 
 func (w *world) release(r *req, x resp) {
+	if w.fg != nil && r.kind != "commit" {
+		x = w.fg.wire(r, x)
+	}
 	w.mu.Lock()
 	for i, p := range w.parked {
 		if p == r {
@@ -785,6 +821,10 @@ func (w *world) nextLatestTick() time.Duration {
 }
 
 func (w *world) sleep(what string, d time.Duration) {
+	if w.fg != nil {
+		w.fg.advance(what, d)
+		return
+	}
 	w.logf("env: clock +%s (%s)", d, what)
 	time.Sleep(d)
 }
@@ -794,6 +834,9 @@ func (w *world) requestOptions(r *req) []option {
 	cfg := w.cfg
 	var opts []option
 	add := func(name string, weight int, do func()) { opts = append(opts, option{name, weight, do}) }
+	if w.fg != nil && r.kind != "commit" {
+		return w.fg.requestOptions(r)
+	}
 	switch r.kind {
 	case "commit":
 		add("commit", 12, func() { w.releaseCommit(r) })
@@ -844,6 +887,9 @@ func (w *world) envOptions() []option {
 	}
 	if cfg.reorgs && w.reorgsN < cfg.maxReorgs {
 		opts = append(opts, option{"reorg", 2, w.reorg})
+	}
+	if w.fg != nil {
+		opts = append(opts, w.fg.clockOptions()...)
 	}
 	return opts
 }
